@@ -147,7 +147,7 @@ fn feq(a: f64, b: f64) -> bool {
     a == b || (a.is_nan() && b.is_nan())
 }
 
-fn c10_wig(enc: &Encoded, spec: &EncSpec, cached: bool, tags: &[String], out: &mut Outcome) {
+fn c10_wig(enc: &Encoded, spec: &EncSpec, cached: bool, paged: bool, tags: &[String], out: &mut Outcome) {
     macro_rules! body {
         ($rd:expr) => {{
             let rd = &mut $rd;
@@ -260,6 +260,17 @@ fn c10_wig(enc: &Encoded, spec: &EncSpec, cached: bool, tags: &[String], out: &m
             }
         }};
     }
+    if paged {
+        // a source whose reads stop at every 7th byte (legal short reads): same answers required
+        match BigWigRead::open(crate::qfam::PagedMem::new(&enc.bytes, 7)) {
+            Err(e) => out.fail("well_formed_file_refused", tags, format!("BigWigRead::open on a short-reading source: {}", e)),
+            Ok(rd) => {
+                let mut rd = rd;
+                body!(rd);
+            }
+        }
+        return;
+    }
     let open = BigWigRead::open(Cursor::new(enc.bytes.clone()));
     match open {
         Err(e) => out.fail("well_formed_file_refused", tags, format!("BigWigRead::open: {}", e)),
@@ -275,7 +286,7 @@ fn c10_wig(enc: &Encoded, spec: &EncSpec, cached: bool, tags: &[String], out: &m
     }
 }
 
-fn c10_bed(enc: &Encoded, spec: &EncSpec, cached: bool, tags: &[String], out: &mut Outcome) {
+fn c10_bed(enc: &Encoded, spec: &EncSpec, cached: bool, paged: bool, tags: &[String], out: &mut Outcome) {
     macro_rules! body {
         ($rd:expr) => {{
             let rd = &mut $rd;
@@ -369,6 +380,16 @@ fn c10_bed(enc: &Encoded, spec: &EncSpec, cached: bool, tags: &[String], out: &m
                 }
             }
         }};
+    }
+    if paged {
+        match BigBedRead::open(crate::qfam::PagedMem::new(&enc.bytes, 7)) {
+            Err(e) => out.fail("well_formed_file_refused", tags, format!("BigBedRead::open on a short-reading source: {}", e)),
+            Ok(rd) => {
+                let mut rd = rd;
+                body!(rd);
+            }
+        }
+        return;
     }
     match BigBedRead::open(Cursor::new(enc.bytes.clone())) {
         Err(e) => out.fail("well_formed_file_refused", tags, format!("BigBedRead::open: {}", e)),
@@ -469,20 +490,23 @@ impl Check for C10 {
             Ok(Ok(is_bed)) if is_bed == spec.bed => {}
             other => out.fail("well_formed_file_refused", &tags, format!("GenericBBIRead::open: {:?}", other.map(|r| r.map_err(|e| format!("{}", e))))),
         }
-        for cached in [false, true] {
+        for (cached, paged) in [(false, false), (true, false), (false, true)] {
+            if paged {
+                out.count("files_read_through_a_short_reading_source", 1);
+            }
             let r = guarded(|| {
                 let mut o = Outcome::default();
                 if spec.bed {
-                    c10_bed(&enc, spec, cached, &tags, &mut o);
+                    c10_bed(&enc, spec, cached, paged, &tags, &mut o);
                 } else {
-                    c10_wig(&enc, spec, cached, &tags, &mut o);
+                    c10_wig(&enc, spec, cached, paged, &tags, &mut o);
                 }
                 o
             });
             match r {
                 Ok(o) => {
                     for f in o.fails {
-                        out.fail(&f.kind, &f.tags, format!("{}{}", if cached { "cached: " } else { "" }, f.detail));
+                        out.fail(&f.kind, &f.tags, format!("{}{}", if cached { "cached: " } else if paged { "short-reading source: " } else { "" }, f.detail));
                     }
                     for (k, v) in o.counters {
                         out.count(&k, v);
